@@ -21,6 +21,17 @@ impl VerifPerf for CatchPerformance<'_> {
         a_d == b_d && a_acc == b_acc && a_combo == b_combo && a_fruits == b_fruits && a_droplets == b_droplets && a_tiny_droplets == b_tiny_droplets && a_tiny_droplet_misses == b_tiny_droplet_misses && a_misses == b_misses
     }
 
+    fn v_map(&self) -> Option<&crate::Beatmap> {
+        match self.map_or_attrs {
+            MapOrAttrs::Map(ref m) => Some(m.as_ref()),
+            MapOrAttrs::Attrs(_) => None,
+        }
+    }
+
+    fn v_map_is_borrowed(&self) -> bool {
+        matches!(self.map_or_attrs, MapOrAttrs::Map(std::borrow::Cow::Borrowed(_)))
+    }
+
     fn v_attrs(&self) -> Option<&Self::Attrs> {
         match self.map_or_attrs {
             MapOrAttrs::Attrs(ref a) => Some(a),
